@@ -20,6 +20,9 @@ def main() -> int:
     d = os.path.join(VERIF, "seeded", sid)
     meta = json.load(open(os.path.join(d, "meta.json")))
     checks = sys.argv[2:] or [meta["property"]]
+    if str(meta.get("status", "")).startswith("neutralised") and not sys.argv[2:]:
+        print(f"{sid}: {meta['status'][:90]}… (skipped)")
+        return 0
     tmp = tempfile.mkdtemp(prefix="verif-seed-")
     try:
         subprocess.run(["git", "-C", "/repo", "worktree", "add", "-q", "--detach", os.path.join(tmp, "wt"), "HEAD"], check=True)
